@@ -126,6 +126,8 @@ class State:
         s.exc = self.exc
         s.ev_len, s.ev_arr = self.ev_len, self.ev_arr
         s.ghost = dict(self.ghost)
+        if "__distinct__" in s.ghost:
+            s.ghost["__distinct__"] = dict(s.ghost["__distinct__"])  # facts proved under one branch's assumptions must not leak to siblings
         s.written_fields = set(self.written_fields)
         s.written_containers = list(self.written_containers)
         s.notes = list(self.notes)
@@ -155,7 +157,7 @@ class State:
 
     # ---- object fields ---------------------------------------------------------------------
     def read_field(self, ref_t, name):
-        return z3.Select(self.field(name), ref_t)
+        return self.resolve(self.field(name), ref_t)
 
     def write_field(self, ref_t, name, val_t):
         self.heap.fields[name] = z3.Store(self.field(name), ref_t, val_t)
@@ -163,16 +165,54 @@ class State:
 
     # ---- containers ------------------------------------------------------------------------
     def dom(self, r):
-        return z3.simplify(z3.Select(self.heap.c_dom, r))  # read-over-write resolved syntactically where the index is literal-equal
+        return self.resolve(self.heap.c_dom, r)
 
     def cmap(self, r):
-        return z3.simplify(z3.Select(self.heap.c_map, r))  # read-over-write resolved syntactically where the index is literal-equal
+        return self.resolve(self.heap.c_map, r)
 
     def clen(self, r):
-        return z3.simplify(z3.Select(self.heap.c_len, r))  # read-over-write resolved syntactically where the index is literal-equal
+        return self.resolve(self.heap.c_len, r)
 
     def cseq(self, r):
-        return z3.simplify(z3.Select(self.heap.c_seq, r))  # read-over-write resolved syntactically where the index is literal-equal
+        return self.resolve(self.heap.c_seq, r)
+
+    def resolve(self, arr, idx):
+        """Select(arr, idx) with read-over-write resolved at construction time: stores at indices that are provably different from
+        idx on this path (cheap check on the quantifier-free part of the path condition, cached) are skipped.  Purely an
+        optimisation - the returned term is equal to Select(arr, idx) under the path condition."""
+        idx = z3.simplify(idx)
+        cur = arr
+        for _ in range(64):
+            if not z3.is_store(cur):
+                break
+            a, i, v = cur.children()
+            if z3.eq(z3.simplify(i), idx):
+                return v
+            if self._distinct(i, idx):
+                cur = a
+                continue
+            break
+        return z3.simplify(z3.Select(cur, idx))
+
+    def _distinct(self, a, b):
+        d = z3.simplify(a - b)
+        if z3.is_int_value(d):
+            return d.as_long() != 0
+        key = (a.get_id(), b.get_id())
+        cache = self.ghost.setdefault("__distinct__", {})
+        if key in cache:
+            return cache[key]
+        sv = z3.Solver()
+        sv.set("timeout", 300)
+        for p in self.pc:
+            if not _has_quant(p):
+                sv.add(p)
+        sv.add(a == b)
+        res = sv.check() == z3.unsat
+        cache[key] = res  # facts are only ever added to a path condition, so a proved disequality stays valid
+        if not res:
+            cache.pop(key)
+        return res
 
     def container_wf(self, r):
         """true facts about every Python dict/set/list (assumed on access)"""
